@@ -2,9 +2,9 @@ package main
 
 import (
 	"fmt"
-	"sync"
 	"math/big"
 	"strings"
+	"sync"
 
 	"verif/hdr"
 	"verif/ref"
